@@ -18,14 +18,19 @@
 EXTENDS JMES, Json, Toks, SequencesExt
 CONSTANTS Emit, Prop
 
-Doc == Obj(<<Mem(<<115>>, Str(<<97,98,99,97,98,99>>)), Mem(<<120>>, Arr([i \in 1..6 |-> JInt(i)])), Mem(<<117>>, Str(<<233, 97, 8364, 98, 128512, 99>>))>>)
+\* s, x, u: short subjects.  l, t, y: subjects beyond the sizes an implementation may treat specially (a string
+\* of 40 code points of mixed width in no regular order, 70 ASCII letters, 70 elements) -- the magnitude of a
+\* parameter must not matter for ANY subject, and a short-subject fast path would hide the general path
+LongCps == [i \in 1..40 |-> IF i % 7 = 3 THEN 233 ELSE IF i % 11 = 5 THEN 8364 ELSE IF i % 13 = 0 THEN 128512 ELSE 97 + (i % 3)]
+Doc == Obj(<<Mem(<<108>>, Str(LongCps)), Mem(<<115>>, Str(<<97,98,99,97,98,99>>)), Mem(<<116>>, Str([i \in 1..70 |-> 97 + (i % 3)])),
+             Mem(<<117>>, Str(<<233, 97, 8364, 98, 128512, 99>>)), Mem(<<120>>, Arr([i \in 1..6 |-> JInt(i)])), Mem(<<121>>, Arr([i \in 1..70 |-> JInt(i)]))>>)
 \* 64-bit limits, and the boundaries of every narrower integer width (an
 \* index or count stored in a small field must not wrap)
 Mags == << <<57,50,50,51,51,55,50,48,51,54,56,53,52,55,55,53,56,48,55>>, <<49,48,48,48,48,48,48,48,48,48,48,48,48,48,48,48,48,48,48>>, <<52,54,49,49,54,56,54,48,49,56,52,50,55,51,56,55,57,48,52>>, <<50,49,52,55,52,56,51,54,52,56>>, <<49,48,48,48,48,48,48>>,
            <<49,50,55>>, <<49,50,56>>, <<50,53,53>>, <<50,53,54>>, <<51,50,55,54,55>>, <<51,50,55,54,56>>, <<54,53,53,51,53>>, <<54,53,53,51,54>>, <<50,49,52,55,52,56,51,54,52,55>>, <<52,50,57,52,57,54,55,50,57,53>>, <<52,50,57,52,57,54,55,50,57,54>> >>
 Twin == <<49,48,48,48>>
 Minus(m) == <<45>> \o m
-S == Id(<<115>>)  X == Id(<<120>>)  U == Id(<<117>>)
+S == Id(<<115>>)  X == Id(<<120>>)  U == Id(<<117>>)  LL == Id(<<108>>)  TT == Id(<<116>>)  YY == Id(<<121>>)
 Fn(name, args) == <<Id(name), LP>> \o args \o <<RP>>
 NumLit(m) == Json(<<96>> \o m \o <<96>>)
 
@@ -49,6 +54,7 @@ ForStr(v, m) == <<
   Fn(<<115,112,108,105,116>>, <<v, Comma, Raw(<<39,98,39>>), Comma, NumLit(m)>>), Fn(<<115,112,108,105,116>>, <<v, Comma, Raw(<<39,39>>), Comma, NumLit(m)>>),
   Fn(<<112,97,100,95,108,101,102,116>>, <<v, Comma, NumLit(Minus(m))>>), Fn(<<112,97,100,95,114,105,103,104,116>>, <<v, Comma, NumLit(Minus(m))>>) >>
 TemplateSeq(m) == ForVar(S, m) \o ForVar(X, m) \o ForVar(U, m) \o ForStr(S, m) \o ForStr(U, m)
+                  \o ForVar(LL, m) \o ForVar(TT, m) \o ForVar(YY, m) \o ForStr(LL, m) \o ForStr(TT, m)
 
 VARIABLES bucket, idx
 Init == bucket \in 1..Len(Mags) /\ idx = 0
